@@ -37,6 +37,7 @@ def build(ctx):
     import harness.util as _U
     _U.PRELUDE = 3      # every third object (by crc32 of its sequence) answers after a query history (util.prelude)
     _U.DECORATE = 4     # every fourth sequence is handed to the constructor in another accepted spelling (util.decorate)
+    _U.DERIVED = 5      # every fifth object is the all-positions-frozen shuffle of the constructed one (same sequence, sampler's code path)
     seqs = sequences(ctx, lmax_t=150)      # the in-Coq delta-max search is quadratic in N with a large constant
     ctx.rng.shuffle(seqs)                  # long sequences spread over the shards
     res = pmap(_kdm, seqs)
